@@ -52,6 +52,10 @@ CLAIMED["C07"] = ("Unbounded proof that the view state only moves forward and on
   "Trusted: interface contracts for unknown code (timeout rules behind the interface, leader rotation, view duration, proposer frame, network); EventLoop.AddEvent trusted contract (emits the event; UnsafeRunInAddEvent handlers do not touch protocol state); SHA-256 collision resistance (hash determines view) for UpdateHighQC; acceptance history facts (qcAccepted etc.) are names for 'Verify returned nil', their meaning is C02's. Not decided: committed view monotone through commitInner (needs the committer under contract), OnRemoteTimeout/OnNewView handler wrappers.",
   "contract-based deductive verification: WP over go/ssa + SMT (govc), ghost event trace", "DESIGN.md 3 C07")
 
+CLAIMED["C10"] = ("Unbounded no-panic proof (every implicit panic site: nil dereference, index, slice bounds, type assertion, nil map, division, make) for the decoding layer and certificate verification under the weakest input assumptions: all nine *FromProto conversions of hotstuffpb for every message the protobuf decoder can produce (any field absent, any byte-string length, any oneof case or none), BitfieldFromBytes for every byte string, and Authority.VerifyQuorumCert / VerifyTimeoutCert / VerifyPartialCert / VerifyAnyQC / findHighestValidQC / VerifyAggregateQC for every certificate value including nil signatures. Four genuine crash defects found by these obligations are fixed in /repo (nil timeout-certificate signature, vote without signature, proposal or fetched block without block body); one is recorded as a known finding (VerifyAggregateQC nil signature, pinned by the repository's own test).",
+  "Trusted: the protobuf decoder's output shape (oneof wrappers and repeated message elements are non-nil, byte fields below 2^28), generated getters are inlined from the repository's .pb.go, kilic/bls12-381 point decoding is total, NewBlock/SetTimestamp bytes-to-sign via trusted contracts. Not decided: see clauses_not_decided (server and protocol handlers, the state-unchanged clause).",
+  "contract-based deductive verification: WP over go/ssa + SMT (govc), zero-annotation panic obligations", "DESIGN.md 3 C10")
+
 NA = {
  "C01": "cross-replica agreement over all schedules and Byzantine behaviours is a protocol-level inductive invariant over a distributed history; no contract on a function or object of one process can state it (DESIGN.md 3 C01)",
  "C05": "liveness / bounded progress under eventual synchrony is a property of whole executions of all replicas; partial-correctness contracts cannot state it (DESIGN.md 3 C05)",
